@@ -115,11 +115,30 @@ fn compare(rep: &Report, built: &drive::Built, text: &str, map: &[(String, Val, 
     rep.eval(2);
     rep.trace(1);
     // unpruned reference verdict: satisfy + execute the in-memory redeem program under env
-    let unpruned: RunOutcome = match drive::guard(|| built.compiled.satisfy(drive::witness_map(map))) {
-        Ok(Ok(s)) => drive::exec_node(s.redeem(), &env),
-        Ok(Err(e)) => RunOutcome::SatisfyErr(e),
-        Err(p) => RunOutcome::SatisfyPanic(p),
+    let unpruned_of = |c: &simfony::CompiledProgram| -> RunOutcome {
+        match drive::guard(|| c.satisfy(drive::witness_map(map))) {
+            Ok(Ok(s)) => drive::exec_node(s.redeem(), &env),
+            Ok(Err(e)) => RunOutcome::SatisfyErr(e),
+            Err(p) => RunOutcome::SatisfyPanic(p),
+        }
     };
+    // the reference verdict comes from an instance that has no history (a second instantiate of the template); the
+    // unpruned satisfy() on the instance under test, which has seen other maps and environments, must agree with it
+    let same_instance = unpruned_of(&built.compiled);
+    let unpruned: RunOutcome = match &built.fresh {
+        Some((args, debug)) => match drive::guard(|| built.template.instantiate(args.clone(), *debug)) {
+            Ok(Ok(c)) => unpruned_of(&c),
+            _ => same_instance.clone(),
+        },
+        None => same_instance.clone(),
+    };
+    if unpruned.class() != same_instance.class() {
+        rep.violation(
+            "C18:unpruned-verdict-depends-on-history",
+            format!("{label}: satisfy() on an instance without history gives {unpruned:?} under env {e:?}, on the instance under test (after earlier satisfy_with_env calls) {same_instance:?}"),
+            json!({"kind": "run", "program": text, "args": [], "witness": map_json(map), "debug": false, "env": env_json(e), "expect": unpruned.class(), "observed": same_instance.class()}),
+        );
+    }
     let pruned = drive::run_pruned(built, drive::witness_map(map), &env);
     // history independence: the first satisfy_with_env call on this instance is repeated after 5 and after 23 other
     // calls (other maps, other environments) and must give the same bytes
@@ -278,6 +297,53 @@ pub fn run(rep: &Report) -> i32 {
                     }
                 }
                 Err(o) => rep.violation("C18:branchy-not-compiled", format!("witness-free {label}: {o:?}"), json!({"kind": "compile", "program": text, "expect": "accept", "observed": "reject"})),
+            }
+        }
+    }
+    // (A'') control flow that depends on the environment: which arm runs (and so which witness is inspected and what
+    // pruning removes) changes from one environment to the next on ONE compiled instance with ONE witness map; every
+    // ordering of the environments is walked, and the unpruned satisfy() is interleaved
+    {
+        let conds: Vec<(&str, Expr)> = vec![
+            ("lock-height<1500", jet("lt_32", vec![jet("tx_lock_height", vec![]), dec(1500)])),
+            ("lock-time<500000050", jet("lt_32", vec![jet("tx_lock_time", vec![]), dec(500_000_050)])),
+            ("lock-distance<6", jet("lt_16", vec![jet("tx_lock_distance", vec![]), dec(6)])),
+            ("tx-is-final", jet("tx_is_final", vec![])),
+        ];
+        for (label, cond) in conds {
+            let body = vec![Stmt::Expr(match_(
+                cond,
+                (MPat::True, block(vec![Stmt::Expr(assert_(jet("eq_8", vec![Expr::Witness("EARLY".into()), dec(1)])))], None)),
+                (MPat::False, block(vec![Stmt::Expr(assert_(jet("eq_8", vec![Expr::Witness("LATE".into()), dec(2)])))], None)),
+            ))];
+            let text = Program { items: vec![Item::Fn(FnDef { name: "main".into(), params: vec![], ret: None, body: (body, None) })] }.render();
+            rep.state();
+            rep.eval(1);
+            let maps: Vec<Vec<(String, Val, Ty)>> = vec![
+                vec![("EARLY".into(), Val::u(8, 1), Ty::U(8)), ("LATE".into(), Val::u(8, 2), Ty::U(8))],
+                vec![("EARLY".into(), Val::u(8, 1), Ty::U(8)), ("LATE".into(), Val::u(8, 3), Ty::U(8))],
+                vec![("EARLY".into(), Val::u(8, 0), Ty::U(8)), ("LATE".into(), Val::u(8, 2), Ty::U(8))],
+            ];
+            // rotations and the reversal of the environment list: every environment follows every other one
+            let mut orders: Vec<Vec<(u32, u32)>> = (0..ENVS.len()).map(|r| (0..ENVS.len()).map(|i| ENVS[(i + r) % ENVS.len()]).collect()).collect();
+            orders.push(ENVS.iter().rev().cloned().collect());
+            orders.push(vec![ENVS[1], ENVS[4], ENVS[1], ENVS[4], ENVS[2], ENVS[4]]);
+            for (oi, order) in orders.iter().enumerate() {
+                for m in &maps {
+                    // a fresh instance per (order, map): the history is exactly this order
+                    match drive::build(&text, simfony::Arguments::default(), false) {
+                        Ok(built) => {
+                            for (k, e) in order.iter().enumerate() {
+                                compare(rep, &built, &text, m, *e, &format!("env-branch {label} order {oi} step {k}"), true);
+                                rep.nontrivial(1);
+                            }
+                        }
+                        Err(o) => {
+                            rep.violation("C18:branchy-not-compiled", format!("env-branch {label}: {o:?}"), json!({"kind": "compile", "program": text, "expect": "accept", "observed": "reject"}));
+                            break;
+                        }
+                    }
+                }
             }
         }
     }
